@@ -120,6 +120,7 @@ class C05(Check):
         q = tier == 'quick'
         return {
             'chains': 300 if q else 10000,
+            'serpentine': 120 if q else 4000,
             'rings': 100 if q else 3000,
             'corners': 300 if q else 10000,
             'polar': 80 if q else 2500,
@@ -237,6 +238,44 @@ class C05(Check):
             dec.append(dec[0])
         ra, dec = self._shuffle(rng, ra, dec)
         return {'L': L, 'cs': self._pick_cs(rng, L), 'ra': ra, 'dec': dec, 'kind': kind}
+
+    def gen_serpentine(self, rng, nr, i):
+        """rows along RA joined alternately at their right and left ends (or all at one end: a comb): the provisional
+        groups of different chunks are merged late and through long chains of equivalences (find-root / path-compression
+        loops of chunks.friendsoffriends with depth >= 2)"""
+        L = log_uniform(rng, 1e-2, 1.5)
+        dec0 = clipdec(rng.choice([0.0, 20.0, -35.0, 50.0, 65.0, 75.0, -70.0]) + rng.uniform(-1, 1))
+        ra0 = rng.choice([rng.uniform(0, 360), 359.0, 0.5])
+        rows = rng.randint(3, 6)
+        nlink = rng.randint(5, 16)
+        comb = rng.random() < 0.35
+        rowgap = rng.uniform(1.15, 3.0)                      # rows are not linked to each other directly
+        f = rng.uniform(0.7, 0.97)
+        up = rng.choice([1.0, -1.0])
+        ra, dec = [], []
+        for r in range(rows):
+            d = clipdec(dec0 + up * r * rowgap * L)
+            w = R.ew_width(f * L, d)
+            if w is None or w * nlink > 100.0:
+                break
+            xs = [R.wrap360(ra0 + q * w) for q in range(nlink + 1)]
+            ra += xs
+            dec += [d] * len(xs)
+            if r + 1 < rows:
+                # connector to the next row: at the right end, or alternating ends; optionally broken (then the rows split)
+                end = xs[-1] if (comb or r % 2 == 0) else xs[0]
+                d2 = clipdec(dec0 + up * (r + 1) * rowgap * L)
+                nst = int(math.ceil(rowgap / 0.9))
+                broken = rng.random() < 0.15
+                for q in range(1, nst):
+                    if broken and q == 1:
+                        continue
+                    ra.append(end)
+                    dec.append(d + (d2 - d) * q / nst)
+        if len(ra) < 2:
+            return None
+        ra, dec = self._shuffle(rng, ra, dec)
+        return {'L': L, 'cs': rng.choice([None, None, 4.0 * L, 5.0 * L, 8.0 * L]), 'ra': ra, 'dec': dec, 'comb': comb}
 
     def gen_rings(self, rng, nr, i):
         sgn = rng.choice([1.0, -1.0])
